@@ -280,38 +280,38 @@ class VNet(V):
         self.f = {}
         self.inst = {}  # instance attributes installed by freeze(): name -> V
         self.frozen_flag = None  # z3 Bool: has instance attribute "frozen"
-        self.shadow = Shadow("net")  # method name -> Bool: instance attribute shadows the method with `frozen`
+        self.shadow = None  # Shadow: which methods are shadowed by exception.frozen
         self.warned = z3.BoolVal(False)
 
 
 class Shadow:
-    """Which method names of an instance are shadowed by exception.frozen: name -> z3 Bool."""
+    """Which methods of an instance are shadowed by exception.frozen.
 
-    def __init__(self, base, symbolic=True):
-        self.base = base
-        self.symbolic = symbolic
-        self.m = {}
+    Instance attributes are installed only by freeze() (checked syntactically, C18), all at once:
+    a method name is shadowed iff the instance is frozen and freeze() of its class installs it.
+    `names` is read from the AST of that freeze(); during the symbolic execution of freeze()
+    itself the installed names are collected in `installed`.
+    """
+
+    def __init__(self, flag, names):
+        self.flag = flag  # z3 Bool: the instance is frozen
+        self.names = set(names)
+        self.installed = set()
 
     def of(self, name):
-        if name not in self.m:
-            # deterministic name: the same symbolic flag whoever asks first (a snapshot or the net)
-            self.m[name] = z3.Bool("shadow_%s_%s" % (self.base, name)) if self.symbolic else z3.BoolVal(False)
-        return self.m[name]
+        if name in self.installed:
+            return z3.BoolVal(True)
+        if name in self.names:
+            return self.flag
+        return z3.BoolVal(False)
 
     def set(self, name):
-        self.m[name] = z3.BoolVal(True)
+        self.installed.add(name)
 
     def snapshot(self):
-        s = Shadow(self.base, self.symbolic)
-        s.m = dict(self.m)
-        s.parent = self
+        s = Shadow(self.flag, self.names)
+        s.installed = set(self.installed)
         return s
 
     def any(self):
-        """Some method is shadowed (over every name the live instance has been asked about so far)."""
-        names = set(self.m)
-        p = getattr(self, "parent", None)
-        while p is not None:
-            names |= set(p.m)
-            p = getattr(p, "parent", None)
-        return z3.Or([self.of("*")] + [self.of(n) for n in sorted(names)])
+        return z3.Or(self.flag, z3.BoolVal(bool(self.installed)))
